@@ -272,3 +272,50 @@ Fixpoint path_type (S : schema) (lbl : flabel) (t : ftype) (p : list pstep) {str
     | LMap kk => match key_of_step kk st with Some _ => path_type S LSingular t rest | None => None end
     end
   end.
+
+(* ---------------------------------------------------------------- PathNode.Load (recursive) + Marshal
+   The loaded tree of a message is its typed AST (Load = the decoder); PathNode.marshal (path.go l.639-802) walks the
+   tree appending into ONE buffer: tag, then for a message / packed list / map entry a one-byte speculative length,
+   the children, and FinishSpeculativeLength (ProtoSpecLen.finish_spec: shifts the payload when the real length needs
+   more than one byte).  [jk b] is the arbitrary content of the spare capacity behind buffer b. *)
+Section Marshal.
+  Variable jk : list Z -> list Z.
+
+  Definition with_spec (b : list Z) (body : list Z -> list Z) : list Z :=
+    let '(b1, pos) := append_spec b in
+    let b2 := body b1 in
+    finish_spec b2 (jk b2) pos.
+
+  Definition tag_bytes (n wt : Z) : list Z := varint_enc (n * 8 + wt).
+
+  Fixpoint mar_fld (n : Z) (v : pval) (b : list Z) {struct v} : list Z :=
+    match v with
+    | VScalar k x => b ++ wenc_field (n, scalar_to_wire k x)           (* AppendTag + the node's raw bytes *)
+    | VBytes _ bs => b ++ wenc_field (n, WBytes bs)
+    | VMsg fs =>
+      with_spec (b ++ tag_bytes n 2) (fun b1 => fold_left (fun acc nv => mar_fld (fst nv) (snd nv) acc) fs b1)
+    | VList true vs => with_spec (b ++ tag_bytes n 2) (fun b1 => b1 ++ flat_map packed_elem vs)
+    | VList false vs => fold_left (fun acc x => mar_fld n x acc) vs b
+    | VMap kvs =>
+      fold_left (fun acc kx =>
+                   with_spec (acc ++ tag_bytes n 2)
+                             (fun b1 => mar_fld 2 (snd kx) (b1 ++ wenc_field (key_field (fst kx))))) kvs b
+    end.
+
+  (* the root layer writes no length *)
+  Definition pmarshal (m : pmsg) : list Z := fold_left (fun acc nv => mar_fld (fst nv) (snd nv) acc) m [].
+End Marshal.
+
+Definition pload (S : schema) (root : list Z) (bs : list Z) : option pmsg := decode_top S root bs.
+
+(* every length-delimited payload the marshaller writes is shorter than 2^31 (Go int / slice limits) *)
+Fixpoint sizes_okb (v : pval) : bool :=
+  match v with
+  | VScalar _ _ | VBytes _ _ => true
+  | VMsg fs => (plen (wenc (flat_map (fun nv => wfld (fst nv) (snd nv)) fs)) <? 2 ^ 31) &&
+               forallb (fun nv => sizes_okb (snd nv)) fs
+  | VList true vs => plen (flat_map packed_elem vs) <? 2 ^ 31
+  | VList false vs => forallb sizes_okb vs
+  | VMap kvs => forallb (fun kx => (plen (wenc (key_field (fst kx) :: wfld 2 (snd kx))) <? 2 ^ 31) &&
+                                   sizes_okb (snd kx)) kvs
+  end.
